@@ -75,6 +75,7 @@ type ClientScenario struct {
 	FailWrites []int // indices of WriteTo calls that fail with an injected error
 	CloseErr   bool  // the connection's Close reports an error (and closes)
 	Raw        bool  // DHCPv4 only: the client runs on nclient4.NewBroadcastUDPConn(<scripted conn>), the production stack (datagrams are IPv4/UDP frames)
+	Twin       bool  // a second client on its own connection has a call in flight with the SAME transaction id as call 0 and gets its own reply (serial 99): clients share nothing
 	Decoy      bool  // a second client with a different configuration is constructed (and closed) after the one under test
 	Log        bool  // the client is configured with its debug logger (output discarded) and, for DHCPv6, with WithLogDroppedPackets
 	Bound      int
@@ -99,6 +100,9 @@ func (s *ClientScenario) String() string {
 	}
 	if s.Decoy {
 		b.WriteString("(another client with another configuration constructed afterwards) ")
+	}
+	if s.Twin {
+		b.WriteString("(a second client with its own connection has a call with call 0's transaction id in flight) ")
 	}
 	for _, c := range s.Calls {
 		fmt.Fprintf(&b, "{id%d m%d start%d cancel%d dl%v after%d}", c.ID, c.Match, c.StartAt, c.CancelAt, c.Deadline, c.After)
@@ -275,6 +279,9 @@ type clientRun struct {
 	thOf         []int           // thread id of each call
 	respAtReturn [][]byte        // encoding of the returned response when the call returned
 	respNow      []func() []byte // re-encodes the returned response object later
+	twinResp     int             // serial returned to the second client's call (-1 none)
+	twinErr      string
+	twinRan      bool
 }
 
 // body returns the function executed as thread 0 of every execution of scenario s.
@@ -297,6 +304,7 @@ func (s *ClientScenario) body(out **clientRun) func() {
 		T := time.Duration(s.T * Tick)
 		var send func(ctx context.Context, c CallSpec, idx int) (int, error)
 		var closeFn func() error
+		var twin func()
 		if !s.V6 {
 			opts4 := []nclient4.ClientOpt{nclient4.WithTimeout(T), nclient4.WithRetry(s.Tries), nclient4.WithServerAddr(serverAddr)}
 			if s.Log {
@@ -314,6 +322,25 @@ func (s *ClientScenario) body(out **clientRun) func() {
 				nclient4.VerifSetBufferCap(cl, s.BufCap)
 			}
 			closeFn = cl.Close
+			if s.Twin {
+				twin = func() {
+					conn2 := NewConn(&History{})
+					other, err := nclient4.NewWithConn(conn2, clientMAC, nclient4.WithTimeout(T), nclient4.WithRetry(s.Tries), nclient4.WithServerAddr(serverAddr))
+					if err != nil {
+						panic(err)
+					}
+					conn2.DeliverAt(1*Tick, Datagram{Serial: 99, Data: buildDg(false, DgSpec{Kind: DgGood, ID: s.Calls[0].ID}, 99), From: serverAddr})
+					p, _ := dhcpv4.New(dhcpv4.WithTransactionID(xid4(s.Calls[0].ID)), dhcpv4.WithHwAddr(clientMAC), dhcpv4.WithMessageType(dhcpv4.MessageTypeDiscover))
+					r, err := other.SendAndRead(context.Background(), serverAddr, p, nil)
+					run.twinResp, run.twinErr, run.twinRan = -1, errClass(err), true
+					if r != nil {
+						if v := r.Options.Get(dhcpv4.GenericOptionCode(serialOpt4)); len(v) == 2 {
+							run.twinResp = int(v[0])
+						}
+					}
+					other.Close()
+				}
+			}
 			if s.Decoy {
 				other, err := nclient4.NewWithConn(NewConn(&History{}), otherMAC, nclient4.WithTimeout(7*T+Tick2), nclient4.WithRetry(s.Tries+2))
 				if err != nil {
@@ -368,6 +395,25 @@ func (s *ClientScenario) body(out **clientRun) func() {
 				nclient6.VerifSetBufferCap(cl, s.BufCap)
 			}
 			closeFn = cl.Close
+			if s.Twin {
+				twin = func() {
+					conn2 := NewConn(&History{})
+					other, err := nclient6.NewWithConn(conn2, clientMAC, nclient6.WithTimeout(T), nclient6.WithRetry(s.Tries), nclient6.WithBroadcastAddr(serverAddr6))
+					if err != nil {
+						panic(err)
+					}
+					conn2.DeliverAt(1*Tick, Datagram{Serial: 99, Data: buildDg(true, DgSpec{Kind: DgGood, ID: s.Calls[0].ID}, 99), From: serverAddr})
+					p := &dhcpv6.Message{MessageType: dhcpv6.MessageTypeSolicit, TransactionID: xid6(s.Calls[0].ID)}
+					r, err := other.SendAndRead(context.Background(), serverAddr6, p, nil)
+					run.twinResp, run.twinErr, run.twinRan = -1, errClass(err), true
+					if r != nil {
+						if o := r.GetOneOption(dhcpv6.OptionCode(serialOpt6)); o != nil && len(o.ToBytes()) == 2 {
+							run.twinResp = int(o.ToBytes()[0])
+						}
+					}
+					other.Close()
+				}
+			}
 			if s.Decoy {
 				other, err := nclient6.NewWithConn(NewConn(&History{}), otherMAC, nclient6.WithTimeout(7*T+Tick2), nclient6.WithRetry(s.Tries+2))
 				if err != nil {
@@ -468,6 +514,13 @@ func (s *ClientScenario) body(out **clientRun) func() {
 				returned[i].Close()
 			})
 		}
+		if twin != nil {
+			wg.Add(1)
+			vs.GoNamed("twin-client", func() {
+				defer wg.Done()
+				twin()
+			})
+		}
 		if s.CloseAt >= 0 {
 			wg.Add(1)
 			vs.GoNamed("closer", func() {
@@ -513,6 +566,9 @@ func (s *ClientScenario) checkClient(run *clientRun, ex *vs.Exec) (violation, ou
 	}
 	if ex.Horizon {
 		return fail("L-livelock", "step horizon reached (livelock suspect)")
+	}
+	if s.Twin && run.twinRan && (run.twinErr != "" || run.twinResp != 99) {
+		return fail("R1-other-client", fmt.Sprintf("the call of the second client (own connection, same transaction id) returned serial %d err %q; its own connection delivered datagram 99 at t=1", run.twinResp, run.twinErr))
 	}
 	if has("R") && len(ex.Races) > 0 {
 		return fail("R8-race", ex.Races[0])
